@@ -191,6 +191,11 @@ def subs_plans(draw, symbols):
             first.append([s, draw(st.sampled_from(["z + 1", "2*z", "z*z"]))])
     env = {s: draw(st.sampled_from(VALUES))
            for s in ["x", "y", "z", "u", "v", "w"]}
+    if draw(st.integers(0, 2)) == 0:
+        # values that differ, and print alike with three digits
+        base = draw(st.sampled_from(VALUES))
+        for k, s in enumerate(["x", "y", "u", "v"]):
+            env[s] = base + 4e-4 * k
     return {"first": first, "env": env,
             "as_list": draw(st.booleans()),
             "order": draw(st.permutations(list(range(6)))),
@@ -522,9 +527,44 @@ def zx_spec_of(d):
     return {"cls": "zx", "dom": [[1, 0]] * len(d.dom), "layers": layers}
 
 
+def enum_near_equal(tier):
+    """ Two boxes of one class whose parameters are different symbols, given
+    values that differ and print alike (three digits): Ket >> H's >> G(x) >>
+    H's >> G(y), pure and measured. """
+    bases = VALUES if tier == "thorough" else [0.3, 1.25, -0.125]
+    for g in qspec.ROT1 + qspec.ROT2 + ["scalar", "sqrt"]:
+        for base in bases:
+            for pair in (("x", "y"), ("u", "x + v")):
+                for measured in (False, True):
+                    two = g in qspec.ROT2
+                    n = 2 if two else 1
+                    hs = [[{"k": "g", "g": "H"}, i] for i in range(n)]
+
+                    def box(expr):
+                        if g == "scalar":
+                            return {"k": "g", "g": "scalar", "a": [expr, 0],
+                                    "mixed": False}
+                        return {"k": "g", "g": g, "a": [expr]}
+                    layers = [[{"k": "g", "g": "Ket", "a": [0] * n}, 0]]\
+                        + hs + [[box(pair[0]), 0]] + hs + [[box(pair[1]), 0]]
+                    if measured:
+                        layers.append([{"k": "g", "g": "Measure",
+                                        "a": [1, True, False]}, 0])
+                    env = {s: base + 4e-4 * k for k, s in enumerate(
+                        ["x", "y", "u", "z"])}
+                    env.update(v=0.0, w=0.5)
+                    yield {"d": {"cls": "circuit", "dom": [],
+                                 "layers": layers},
+                           "plan": {"first": [], "env": env, "as_list": False,
+                                    "order": list(range(6)), "extra": False}}
+
+
 core.register("C14", [
     Facet("circuits", circuit_cases, check_circuit, n_quick=480,
           shards_quick=8, rule=RULE),
+    Facet("near_equal", None, check_circuit, enum=enum_near_equal,
+          shards_quick=4, rule="every parametrised gate twice in a circuit, "
+          "on two symbols whose values differ in the fourth digit"),
     Facet("tensors", tensor_cases, check_tensor, n_quick=320,
           shards_quick=4, rule="tensor diagrams whose boxes mix sympy and "
           "numeric entries"),
